@@ -593,9 +593,19 @@ def _consumer_fields(draw, d, v, consumer, body, defect=None, labels=None):
 def put_allocations(draw, d, v, consumer=None, defect=None, clear=False):
     consumer = consumer or draw(st.sampled_from(CONS))
     labels = []
+    same = False
     if clear and v >= (1, 28):
         amap = {}
         labels.append('clear')
+    elif defect is None and consumer in d.consumers and \
+            draw(st.integers(0, 7)) == 7:
+        # the idempotent re-PUT of what the consumer already holds
+        amap = {}
+        for (c, rp, rc), a in d.allocations.items():
+            if c == consumer:
+                amap.setdefault(rp, {'resources': {}})['resources'][rc] = a
+        labels.append('same-as-stored')
+        same = True
     else:
         amap = _draw_alloc_map(draw, d, consumer, defect, labels)
     if v < (1, 12):
@@ -605,6 +615,9 @@ def put_allocations(draw, d, v, consumer=None, defect=None, clear=False):
     else:
         body = {'allocations': amap}
     _consumer_fields(draw, d, v, consumer, body, defect, labels)
+    if same and v >= (1, 8):
+        body['project_id'] = d.consumers[consumer]['project']
+        body['user_id'] = d.consumers[consumer]['user']
     if len(amap) >= 2:
         labels.append('multi-provider')
     return R('PUT', '/allocations/' + consumer, v, body, 'put_allocations',
